@@ -36,6 +36,19 @@ struct Conn {
     prev_tx_t: u64,
     remote_ports: BTreeSet<u16>,
     handshake_confirmed: bool,
+    /// current 1-RTT key generation (KeyUpdate events)
+    key_gen: u16,
+    /// change points: first 1-RTT packet number tapped at each generation
+    tx_gen: Vec<(u64, u16)>,
+}
+
+impl Conn {
+    /// the generation the endpoint was at when it handed packet `pn` to the tx tap. The packet
+    /// may have been protected with the next one (rotation happens at encryption time), never
+    /// with an older one.
+    fn tx_gen_of(&self, pn: u64) -> u16 {
+        self.tx_gen.iter().rev().find(|(first, _)| *first <= pn).map(|(_, g)| *g).unwrap_or(0)
+    }
 }
 
 pub struct C08 {
@@ -45,6 +58,8 @@ pub struct C08 {
     edt: HashMap<(EpId, u16), (u64, Option<u64>)>,
     /// genuine intact datagrams delivered: (dst ep, at) -> packets inside
     delivered: HashMap<(EpId, u64), (Vec<(Space, u64, Option<u32>)>, u32)>,
+    /// sender of the genuine packets above: (dst ep, at, space, pn) -> (src ep, src conn)
+    delivered_src: HashMap<(EpId, u64, u64), (EpId, u64)>,
     net_corrupts: bool,
     enforce_promptness: bool,
     /// receive buffer size of each endpoint's socket: larger datagrams are truncated there
@@ -62,6 +77,7 @@ impl C08 {
             mad_us,
             edt: HashMap::new(),
             delivered: HashMap::new(),
+            delivered_src: HashMap::new(),
             net_corrupts: p.net.phases.iter().any(|p| p.corrupt > 0.0 || p.truncate > 0.0),
             enforce_promptness: p.knob("c08_promptness") != 0 || std::env::var("VQ_C08_PROMPT").is_ok(),
             max_mtu: std::iter::once(p.server.max_mtu)
@@ -138,6 +154,9 @@ impl Monitor for C08 {
         }
         s.last_tx_pn = Some(p.pn);
         cx.summary.count("c08.tx_packets", 1);
+        if p.space == Space::App && c.tx_gen.last().map(|(_, g)| *g) != Some(c.key_gen) {
+            c.tx_gen.push((p.pn, c.key_gen));
+        }
 
         for f in &p.frames {
             let Frame::Ack { ranges, .. } = f else { continue };
@@ -225,6 +244,30 @@ impl Monitor for C08 {
         if conn == u64::MAX {
             return;
         }
+        // (d) candidates protected before the sender followed a key update (see below)
+        let old_gen_pns: Vec<u64> = match e {
+            Evt::PacketDropped { decrypt_failed: true, .. } => {
+                let my_gen = self.conns.get(&(ep, conn)).map(|c| c.key_gen).unwrap_or(0);
+                self.delivered
+                    .get(&(ep, t))
+                    .map(|(pkts, _)| {
+                        pkts.iter()
+                            .filter(|(s, pn, _)| {
+                                *s == Space::App
+                                    && self
+                                        .delivered_src
+                                        .get(&(ep, t, *pn))
+                                        .and_then(|src| self.conns.get(src))
+                                        .map(|sc| sc.tx_gen_of(*pn) < my_gen)
+                                        .unwrap_or(false)
+                            })
+                            .map(|x| x.1)
+                            .collect()
+                    })
+                    .unwrap_or_default()
+            }
+            _ => Vec::new(),
+        };
         let c = self.conns.entry((ep, conn)).or_default();
         match e {
             Evt::Started { remote_port, .. } => {
@@ -252,6 +295,9 @@ impl Monitor for C08 {
                 if *status == "confirmed" {
                     c.handshake_confirmed = true;
                 }
+            }
+            Evt::KeyUpdate { generation } => {
+                c.key_gen = *generation;
             }
             Evt::PacketDropped {
                 decrypt_failed: true,
@@ -286,7 +332,33 @@ impl Monitor for C08 {
                             cx.summary.count("c08.undecodable_beyond_window", late);
                             cx.feature("late_beyond_pn_window");
                         }
+                        // Initial packets are protected with keys derived from the destination
+                        // id of the client's first flight, which changes with a Retry: a
+                        // delayed copy of a pre-Retry Initial is routed to the connection (by
+                        // its original id) and legitimately fails there. Only the spaces whose
+                        // keys are fixed per connection are candidates.
+                        let initial_only = matches!(space_pn, Some((Space::Initial, _)))
+                            || pkts.iter().all(|(s, _, _)| *s == Space::Initial);
+                        // RFC 9001 6.5: read keys of the previous generation are only retained
+                        // for a while after an update; a packet the sender protected before it
+                        // followed the update and that arrives after the receiver let go of the
+                        // old keys is legitimately undecryptable. The monitor cannot see the
+                        // retention timer, so such packets are never candidates.
+                        let mut old_gen = 0;
+                        pkts.retain(|(s, pn, _)| {
+                            if *s == Space::App && old_gen_pns.contains(pn) {
+                                old_gen += 1;
+                                return false;
+                            }
+                            true
+                        });
+                        if old_gen > 0 {
+                            cx.summary.count("c08.undecryptable_previous_key_generation", old_gen);
+                            cx.feature("old_generation_packet_after_update");
+                        }
+                        let late = late + old_gen;
                         let relevant = late == 0
+                            && !initial_only
                             && match space_pn {
                                 Some((sp, _)) => pkts.iter().any(|(s, _, _)| s == sp),
                                 None => !pkts.is_empty(),
@@ -369,10 +441,18 @@ impl Monitor for C08 {
             .or_default()
             .0
             .extend(w.pkts.iter().map(|(_, s, pn)| (*s, *pn, pn_len)));
+        if let Some(src) = w.src {
+            for (conn, s, pn) in &w.pkts {
+                if *s == Space::App {
+                    self.delivered_src.insert((dst, at, *pn), (src, *conn));
+                }
+            }
+        }
         // keep the map small
         if self.delivered.len() > 4096 {
             let cutoff = at.saturating_sub(2_000_000);
             self.delivered.retain(|(_, t), _| *t >= cutoff);
+            self.delivered_src.retain(|(_, t, _), _| *t >= cutoff);
         }
     }
 
